@@ -4,7 +4,7 @@ from __future__ import annotations
 
 import itertools
 
-from vf.combi import digits
+from vf.combi import digits, fresh
 from vf.guard import call as gcall, too_many_hangs
 from vf.core import Job, new_result, viol
 
@@ -120,7 +120,7 @@ def judge_prim(n, edges, start, labels):
     from solvor.mst import prim
     from solvor.types import Status
 
-    lab = (lambda x: labels[x]) if labels else (lambda x: x)
+    lab = (lambda x: fresh(labels[x])) if labels else (lambda x: x)
     nc, opt, nt = oracle(n, edges)
     g = {lab(x): [] for x in range(n)}
     for u, v, w in edges:
@@ -194,7 +194,7 @@ def _simple_chunk(params, lo, hi):
     for idx in range(lo, hi):
         ds = digits(idx, len(alpha), len(pairs))
         edges = [(pairs[i][0], pairs[i][1], alpha[d]) for i, d in enumerate(ds) if alpha[d] is not None]
-        run_graph(r, n, edges, labels=(MIXED if idx % 4 == 3 else labels) if idx % 2 else None)
+        run_graph(r, n, edges, labels=(MIXED if idx % 4 == 3 else (BIG if idx % 8 == 5 else labels)) if idx % 2 else None)
         if len(r["violations"]) >= 40 or too_many_hangs():
             r["capped"] = True
             break
@@ -237,6 +237,7 @@ def _dup_chunk(params, lo, hi):
 A5 = (None, -1, 0, 1, 2)
 STR = ["a", "b", "c", "d", "e"]
 MIXED = [None, 0, "", (1,), 2.5]  # falsy / None / tuple / float labels
+BIG = [1000, "node-b", (1, (2, 3)), 2.5, -1000]  # labels of which equal copies are distinct objects (see vf.combi.fresh)
 
 
 def jobs(tier, seed):
